@@ -1,10 +1,10 @@
 package main
 
 import (
-	"go/types"
 	"fmt"
 	"go/constant"
 	"go/token"
+	"go/types"
 	"strings"
 
 	"golang.org/x/tools/go/ssa"
@@ -14,9 +14,9 @@ func init() { register("C04", propC04) }
 
 func propC04() *Property {
 	return &Property{
-		ID:      "C04",
-		NeedCG:  false,
-		Decides: "R04.1 the payload of every segment built by a read path is nil or the result of an AEAD open whose error was tested nil; R04.2 every slice bound and read size that drives parsing derives from the unmarshalled (authenticated) metadata, and on the datagram parser each such bound is dominated by a comparison with the remaining length; R04.3 low-entropy decode validates the metadata before touching the encoded body (shared with C17); R04.4 a stream read/decrypt/protocol error ends the event loop (no path back to the next read); R04.5 a datagram that fails decrypt/unmarshal/parse produces no segment (every failure edge reaches the next ReadFrom without a return of a segment); R04.6 segments of a session's own sending direction are refused by the direction whitelist (a reflected datagram authenticates under the same key; folded over all protocol numbers); R04.7 no two AEAD seals share one (key, nonce) pair without associated data separating them; R04.8 on the datagram transport a segment type this end never receives legitimately is dropped with a nil return (never an error, which would close the session) - folded for all 16 protocol numbers on both roles.; R04.9 what makes a discarded datagram equivalent to a lost one on UDP: data is withheld until the open response while the open request stays retransmittable, and the retransmission scan repairs every loss (R02.7, R02.6)",
+		ID:         "C04",
+		NeedCG:     false,
+		Decides:    "R04.1 the payload of every segment built by a read path is nil or the result of an AEAD open whose error was tested nil; R04.2 every slice bound and read size that drives parsing derives from the unmarshalled (authenticated) metadata, and on the datagram parser each such bound is dominated by a comparison with the remaining length; R04.3 low-entropy decode validates the metadata before touching the encoded body (shared with C17); R04.4 a stream read/decrypt/protocol error ends the event loop (no path back to the next read); R04.5 a datagram that fails decrypt/unmarshal/parse produces no segment (every failure edge reaches the next ReadFrom without a return of a segment); R04.6 segments of a session's own sending direction are refused by the direction whitelist (a reflected datagram authenticates under the same key; folded over all protocol numbers); R04.7 no two AEAD seals share one (key, nonce) pair without associated data separating them; R04.8 on the datagram transport a segment type this end never receives legitimately is dropped with a nil return (never an error, which would close the session) - folded for all 16 protocol numbers on both roles.; R04.9 what makes a discarded datagram equivalent to a lost one on UDP: data is withheld until the open response while the open request stays retransmittable, and the retransmission scan repairs every loss (R02.7, R02.6)",
 		NotDecided: "AEAD strength; what the application read (run-time); padding content (unauthenticated by design); timing.",
 		Rules: []Rule{
 			{ID: "R04.1", Floor: 4, Text: "segment.payload provenance on the read paths", Run: r04_1},
@@ -411,7 +411,6 @@ func r04_7(c *RC) {
 	})
 }
 
-
 // r04_8: on the datagram transport a segment type that this end never
 // receives legitimately (inserted or reflected by anyone on the path) must be
 // dropped like a lost datagram: Session.input returns nil before looking at
@@ -499,7 +498,6 @@ func protocolNames(p *Prog) map[int64]string {
 	}
 	return byVal
 }
-
 
 // isDecryptWrapper: fn's first result is, on every return, nil or the
 // plaintext (result #0) of a Decrypt / DecryptWithNonce call whose error edge
